@@ -74,8 +74,29 @@ def vseq(s):
     return Pseq(vals, 1)
 
 
-def binds(b):
-    return {k: vseq(s) for k, s in b}
+def binds(b, tup=None):
+    if tup is None:
+        return {k: vseq(s) for k, s in b}
+    # rows tup and tup+1 given as ONE tuple key whose values are lists of two items: the same events
+    from sc3.seq.patterns.listpatterns import Pseq
+    from math import gcd
+    out = {}
+    for i, (k, s) in enumerate(b):
+        if i == tup:
+            (k2, s2) = b[i + 1]
+            v1 = [val(x) for x in s[1:] if x != 'seq']
+            v2 = [val(x) for x in s2[1:] if x != 'seq']
+            if s[0] == 'fin':
+                n = min(len(v1), len(v2))
+                out[(k, k2)] = Pseq([[v1[j], v2[j]] for j in range(n)], 1)
+            else:
+                n = len(v1) * len(v2) // gcd(len(v1), len(v2))
+                out[(k, k2)] = Pseq([[v1[j % len(v1)], v2[j % len(v2)]] for j in range(n)], float('inf'))
+        elif i == tup + 1:
+            continue
+        else:
+            out[k] = vseq(s)
+    return out
 
 
 def epat(t):
@@ -83,8 +104,10 @@ def epat(t):
     from sc3.seq.patterns.filterpatterns import Pdur, Pdelta
     k = t[0]
     if k == 'bind':
-        return Pbind(binds(t[1]))
+        return Pbind(binds(t[1], t[2]['tuple'] if len(t) > 2 else None))
     if k == 'chain':
+        if len(t) > 3 and t[3] == 'method':
+            return Pchain(Pbind(binds(t[1]))).chain(epat(t[2]))     # the method form of Pchain(a, b)
         return Pchain(Pbind(binds(t[1])), epat(t[2]))
     if k == 'mono':
         from sc3.seq.patterns.eventpatterns import Pmono
@@ -154,6 +177,13 @@ def run_case(case, errs):
     def body():
         yield t0
         try:
+            if prog[0] == 'event' and len(prog) > 3:
+                # play(dict, **keywords): keywords repeat keys of the dict and override them
+                from sc3.base.play import play as _play
+                kw = {k: val(v) for k, v in prog[2] if k in prog[3]}
+                d = {k: (1 if k in prog[3] else val(v)) for k, v in prog[2]}
+                _play(d, **kw)
+                return
             if prog[0] in ('event', 'replay', 'redef'):
                 obj = event({k: val(v) for k, v in prog[2]})
             else:
